@@ -37,11 +37,15 @@ class MechStream:
         self.dual = dual
         self.k = 0
 
-    def blocks(self, gap_prob=0.05, jitter=True, dist=None, big_steps=False):
+    def blocks(self, gap_prob=0.05, jitter=True, dist=None, big_steps=False, zero_gap_blk=None, tail_invalid_p=0.25):
         rng, l = self.rng, self.l
         bl = []
         for b in range(l.nblk):
             chans = [((dist(rng) if dist else rdist(rng)), rng.randrange(256)) for _ in range(l.nchan)]
+            if dist is None and rng.random() < tail_invalid_p:
+                # trailing slots of the block out of range (raw 0): the block's last decoded slots yield no valid point
+                k = rng.randrange(1, max(2, l.nchan // 2 + 1))
+                chans[-k:] = [(0, c[1]) for c in chans[-k:]]
             bl.append((self.az, chans))
             advance = True
             if self.dual and not l.T.get('is16') and (self.k % 2 == 0):
@@ -53,6 +57,10 @@ class MechStream:
                     st = rng.choice([99, 100, 101, 102, 1500, 9000])
                 if big_steps and rng.random() < 0.1:
                     st = rng.choice([0, 17999, 18000, 35999])
+                if zero_gap_blk is not None and b >= zero_gap_blk and self.az > 18000:
+                    # a FOV-gap sized jump (> 1 deg) that crosses 0 deg
+                    st = (36000 - self.az) + rng.choice([1, 150, 400, 4000])
+                    zero_gap_blk = None
                 self.az = (self.az + max(0, st)) % 36000
         return bl
 
@@ -203,7 +211,7 @@ class Scn:
 
 def mixed_scenario(rng, L, tname, sname, cfg, answers=None, npk=None, malformed_p=0.25, badblk_p=0.12, difop_at=None, dual=None,
                    host=False, residual=True, temp_query=False, dev_query=False, big_steps=False, gap_p=0.05, start_az=None, step=None, seq0=None,
-                   dist=None, fov=None, rpm=None):
+                   dist=None, fov=None, rpm=None, zero_gap=False, tail_invalid_p=0.25):
     """one scenario: a DIFOP/MSOP stream for lidar `tname` with malformed packets interleaved"""
     l = L[tname]
     s = Scn(sname)
@@ -232,8 +240,11 @@ def mixed_scenario(rng, L, tname, sname, cfg, answers=None, npk=None, malformed_
                 kd2, v2, h2, r2 = cali_table(rng, l)
                 s.pkt(0, l.difop(dual=rng.random() < 0.5, rpm=rng.choice([300, 600, 1200]), fov=fov, vert=v2, horiz=h2, raw_cali=r2))
             model = rng.choice([0, 2, 3]) if tname == 'RSP80' else None
+            zg = rng.randrange(0, max(1, l.nblk - 2)) if (zero_gap and k == n // 2) else None
+            if zg is not None and ms.az < 18000:
+                ms.az = 35000 + rng.randrange(0, 900)
             m = ms.msop(bpv4=bp, model=model, bad_blk=(rng.randrange(l.nblk) if rng.random() < badblk_p else None),
-                        big_steps=big_steps, gap_prob=gap_p, dist=dist)
+                        big_steps=big_steps, gap_prob=gap_p, dist=dist, zero_gap_blk=zg, tail_invalid_p=tail_invalid_p)
             if host:
                 hostv += rng.randrange(1, 5000); s.add(f'H {hostv}')
             s.pkt(0, m)
